@@ -88,6 +88,30 @@ def main():
             viol.append(f'server failing at step {step}: the RemoteWorker constructor is still blocked after 6 s')
         elif 'worker' in r and r.get('same_pid_as_parent'):
             viol.append(f'server failing at step {step}: constructor returned a worker whose id is the parent\'s own identity {r["worker"]}')
+    # process kind: the child dies during start-up (while unpickling its arguments), before reporting its identity
+    from pyworkers.process import ProcessWorker
+    res = {}
+
+    def body():
+        try:
+            w = ProcessWorker(T.square, args=(T.KillsItsLoader(),))
+            res['worker'] = f'alive={w.is_alive()}'
+            try:
+                w.terminate(timeout=1)
+            except Exception:
+                pass
+        except BaseException as e:      # noqa
+            res['raised'] = f'{type(e).__name__}: {e}'
+    t = threading.Thread(target=body, daemon=True)
+    t.start()
+    t.join(15)
+    res['hung'] = t.is_alive()
+    obs['process_child_dies_in_startup'] = res
+    if res['hung']:
+        viol.append('process worker whose child dies during start-up (before reporting its identity): the constructor is still blocked after 15 s - neither returned nor raised')
+        import multiprocessing as mp
+        for c in mp.active_children():
+            c.kill()
     server = spawn_server(('127.0.0.1', 0))
     try:
         r = construct(server.addr, context=12345)
